@@ -155,12 +155,81 @@ Arguments c_state {val var}.
 Arguments c_vals {val var}.
 Arguments c_var {val var}.
 
+(* ---- typed NOTIFIED values (typed_value.h NotifiedValue<T>::doParse; factories notify<T>(obj, fn, parser), flag(obj, fn, action),
+   store<T>(map) = notify<T>(&map, &ValueMap::add<T>)).  doParse:
+       pv  = property_location ? value_.address : (exit.obj = value_.create());      // in place, or a NEW object
+       ret = parser_(value, pv);
+       if (ret && notify_.notify(name, pv)) { storeTo(pv); exit.obj = 0; }             // kept: from now on parsed in place
+       return ret;                                                                     // ~Owned deletes exit.obj
+   The notification function is called exactly when the parser ACCEPTED the string, with the object the parser filled; its ANSWER only
+   selects who owns a newly created object: true = the notified context keeps it (and the value parses in place from now on), false = the
+   context copied what it needs and the library deletes the object.  The answer is NOT part of the result of doParse: the value was
+   accepted.  (Contrast: CustomValue::doParse returns notify_.notify(name, value) - for the UNTYPED custom value the callback's answer IS
+   the validity of the string, [custom_parser] below.)
+   The bound "variable" of such an option is the state of the notified context for this option plus the bookkeeping of the objects:
+     n_loc    the CURRENT Value object has a location (it handed an object over and parses in place into it)
+     n_held   the object the context owns (None: none).  While n_loc holds this is the object the value parses into.
+     n_log    every object the notification function was called with, in order (the harness' context copies each into its log)
+     n_made   objects created by the library for this option;  n_freed  objects the library deleted itself (declined / refused string);
+     n_cfreed objects the CONTEXT deleted because it was handed a newer one (harness: TCtx::onValue).
+   [create] = new T(), [apply o x ob] = what the accepted string does to the object (overwrite / append), [dirt o s ob] = what a refused
+   string leaves in it, [answer o log ob] = what the notification function returns (it may depend on everything it has seen). ---- *)
+Section Notified.
+Variables val obj : Type.
+Variable create : nat -> obj.
+Variable apply : nat -> val -> obj -> obj.
+Variable dirt : nat -> str -> obj -> obj.
+Variable answer : nat -> list obj -> obj -> bool.
+
+Record nstate := mkN { n_loc : bool; n_held : option obj; n_log : list obj; n_made : Z; n_freed : Z; n_cfreed : Z }.
+
+(* Some ob: property_location is set - the value parses in place into the object it handed over *)
+Definition n_target (st : nstate) : option obj := if n_loc st then n_held st else None.
+
+(* the parser accepted the string and produced x *)
+Definition n_store (o : nat) (x : val) (st : nstate) : nstate :=
+  match n_target st with
+  | Some ob =>                             (* in place; the function is called, its answer changes nothing (exit.obj is 0 anyway) *)
+      let pv := apply o x ob in
+      mkN true (Some pv) (n_log st ++ [pv]) (n_made st) (n_freed st) (n_cfreed st)
+  | None =>
+      let pv := apply o x (create o) in
+      if answer o (n_log st) pv
+      then mkN true (Some pv) (n_log st ++ [pv]) (n_made st + 1) (n_freed st)
+               (n_cfreed st + match n_held st with Some _ => 1 | None => 0 end)     (* kept; the context drops the object it held *)
+      else mkN false (n_held st) (n_log st ++ [pv]) (n_made st + 1) (n_freed st + 1) (n_cfreed st)   (* declined: deleted by ~Owned *)
+  end.
+
+(* the parser refused the string: no notification; a new object dies with the scope guard, an in-place object keeps what was written *)
+Definition n_fail (o : nat) (s : str) (st : nstate) : nstate :=
+  match n_target st with
+  | Some ob => mkN true (Some (dirt o s ob)) (n_log st) (n_made st) (n_freed st) (n_cfreed st)
+  | None => mkN false (n_held st) (n_log st) (n_made st + 1) (n_freed st + 1) (n_cfreed st)
+  end.
+
+(* the option set is re-built: the fresh Value has no location; the context keeps its object and its log *)
+Definition n_newrun (o : nat) (st : nstate) : nstate := mkN false (n_held st) (n_log st) (n_made st) (n_freed st) (n_cfreed st).
+End Notified.
+Arguments mkN {obj}.
+Arguments n_loc {obj}.
+Arguments n_held {obj}.
+Arguments n_log {obj}.
+Arguments n_made {obj}.
+Arguments n_freed {obj}.
+Arguments n_cfreed {obj}.
+
+(* the UNTYPED custom value (CustomValue::doParse = notify_.notify(name, value)): the callback's answer is the validity of the string *)
+Definition custom_parser (cb : nat -> str -> bool) (o : nat) (s : str) : option str := if cb o s then Some s else None.
+
 (* ------------------------------------------------------------------------------------------------
    Concrete instance used by the correspondence check: the typed targets of the harness.
    kind 0 flag(store_true) 1 flag(store_false) 2 int 3 std::string 4 std::vector<int> 5 ValueMap store<int> 6 custom notifier
         7 ValueMap flag(store_true) 8 ValueMap flag(store_false)   (mapped_value.h flag(ValueMap&, FlagAction): the bool lives in the map,
           absent until the first accepted value; afterwards the NotifiedValue parses in place, like kind 5)
         9 ValueMap store<std::vector<int> >
+        typed notifiers with a logging context ([n_store] / [n_fail] above over the element type [k_base]):
+        10 int / 11 string / 12 flag(store_true) / 13 vector<int>: the function DECLINES (false)    14 / 15 / 16 / 17: the same, KEEPS (true)
+        18 int, keeps an even value, declines an odd one      19 flag(store_false), declines
    Values and variable contents are encoded as lists of integers.
    A MAPPED variable (kinds 5, 7, 8, 9) is  []  = the map has no entry,  1 :: content = the entry is the object the option's current
    Value parses into (NotifiedValue after its hand-over: in place),  0 :: content = the entry was left by an EARLIER option set (a
@@ -244,24 +313,24 @@ Definition vec_conv (s : str) : option (list Z) * list Z :=
   | _, _ => (None, xs)
   end.
 
-Definition k_parser (kind : Z) (s : str) : option (list Z) :=
+Definition k_parser0 (kind : Z) (s : str) : option (list Z) :=
   if (kind =? 0) || (kind =? 7) then match s with [] => Some [1] | _ => match fst (bool_conv s) with Some b => Some [b] | None => None end end
   else if (kind =? 1) || (kind =? 8) then match s with [] => Some [0] | _ => match fst (bool_conv s) with Some b => Some [1 - b] | None => None end end
   else if (kind =? 2) || (kind =? 5) then match fst (int_conv s) with Some v => Some [v] | None => None end
   else if kind =? 3 then Some s
   else if (kind =? 4) || (kind =? 9) then fst (vec_conv s)
-  else match s with 33 :: _ => None | _ => Some s end.          (* the harness' notifier refuses strings starting with '!' *)
+  else custom_parser (fun _ s => match s with 33 :: _ => false | _ => true end) 0%nat s.   (* the harness' custom notifier refuses strings starting with '!' *)
 
 Definition k_mapped (kind : Z) : bool := (kind =? 5) || (kind =? 7) || (kind =? 8) || (kind =? 9).
 
-Definition k_store (kind : Z) (x : list Z) (v : list Z) : list Z :=
+Definition k_store0 (kind : Z) (x : list Z) (v : list Z) : list Z :=
   if kind =? 4 then v ++ x
   else if kind =? 6 then v ++ (Z.of_nat (length x) :: x)
   else if kind =? 9 then match v with 1 :: c => 1 :: c ++ x | _ => 1 :: x end     (* in place: appended; new object: the parsed list *)
   else if k_mapped kind then 1 :: x
   else x.
 
-Definition k_fail (kind : Z) (s : str) (v : list Z) : list Z :=
+Definition k_fail0 (kind : Z) (s : str) (v : list Z) : list Z :=
   if kind =? 0 then match snd (bool_conv s) with Some b => [b] | None => v end
   else if kind =? 2 then match snd (int_conv s) with Some x => [x] | None => v end
   else if kind =? 4 then v ++ snd (vec_conv s)
@@ -270,13 +339,67 @@ Definition k_fail (kind : Z) (s : str) (v : list Z) : list Z :=
   else if kind =? 9 then match v with 1 :: c => 1 :: c ++ snd (vec_conv s) | _ => v end
   else v.
 
-Definition k_init (kind : Z) : list Z :=
+Definition k_init0 (kind : Z) : list Z :=
   if (kind =? 0) || (kind =? 1) then [0] else if kind =? 2 then [-777] else [].
 
-(* the option set is re-built: a mapped entry stays in the map but is not the new Value's object *)
+(* ---- typed notifiers (kinds 10..19): the variable is an [nstate] over objects = lists of integers, encoded as
+        loc made freed cfreed held clen content..  { len elems.. }*          ---- *)
+Definition k_tnotif (kind : Z) : bool := (10 <=? kind) && (kind <=? 19).
+Definition k_base (kind : Z) : Z :=                (* the element type, as the kind of the plain typed target *)
+  if (kind =? 10) || (kind =? 14) || (kind =? 18) then 2
+  else if (kind =? 11) || (kind =? 15) then 3
+  else if (kind =? 12) || (kind =? 16) then 0
+  else if kind =? 19 then 1
+  else if (kind =? 13) || (kind =? 17) then 4
+  else kind.
+Definition k_create (kind : Z) : list Z :=         (* new T(): int 0, bool false, empty string / vector *)
+  let b := k_base kind in if (b =? 2) || (b =? 0) || (b =? 1) then [0] else [].
+Definition k_answer (kind : Z) (log : list (list Z)) (ob : list Z) : bool :=
+  if (14 <=? kind) && (kind <=? 17) then true
+  else if kind =? 18 then match ob with v :: _ => Z.even v | [] => false end
+  else false.
+Definition enc_log (l : list (list Z)) : list Z := flat_map (fun e => Z.of_nat (length e) :: e) l.
+Fixpoint dec_log (fuel : nat) (l : list Z) : list (list Z) :=
+  match fuel with
+  | O => []
+  | S f => match l with
+           | [] => []
+           | n :: r => firstn (Z.to_nat n) r :: dec_log f (skipn (Z.to_nat n) r)
+           end
+  end.
+Definition enc_ns (st : nstate (list Z)) : list Z :=
+  b2z (n_loc st) :: n_made st :: n_freed st :: n_cfreed st ::
+  match n_held st with Some c => 1 :: Z.of_nat (length c) :: c | None => [0; 0] end ++ enc_log (n_log st).
+Definition dec_ns (v : list Z) : nstate (list Z) :=
+  match v with
+  | loc :: made :: freed :: cfreed :: held :: clen :: r =>
+      let lg := skipn (Z.to_nat clen) r in
+      mkN (negb (loc =? 0)) (if held =? 0 then None else Some (firstn (Z.to_nat clen) r)) (dec_log (length lg) lg) made freed cfreed
+  | _ => mkN false None [] 0 0 0
+  end.
+
+Definition k_parser (kind : Z) (s : str) : option (list Z) := k_parser0 (k_base kind) s.
+Definition k_store (kind : Z) (x : list Z) (v : list Z) : list Z :=
+  if k_tnotif kind
+  then enc_ns (n_store (list Z) (list Z) (fun _ => k_create kind) (fun _ => k_store0 (k_base kind)) (fun _ => k_answer kind) 0%nat x (dec_ns v))
+  else k_store0 kind x v.
+Definition k_fail (kind : Z) (s : str) (v : list Z) : list Z :=
+  if k_tnotif kind then enc_ns (n_fail (list Z) (fun _ => k_fail0 (k_base kind)) 0%nat s (dec_ns v)) else k_fail0 kind s v.
+Definition k_init (kind : Z) : list Z := if k_tnotif kind then enc_ns (mkN false None [] 0 0 0) else k_init0 kind.
+
+(* the option set is re-built: a mapped entry stays in the map but is not the new Value's object; a notified context keeps its object
+   and its log, the new Value has no location *)
 Definition k_newrun (kind : Z) (v : list Z) : list Z :=
-  if k_mapped kind then match v with _ :: c => 0 :: c | [] => [] end else v.
-Definition k_view (kind : Z) (v : list Z) : list Z := if k_mapped kind then tl v else v.
+  if k_tnotif kind then enc_ns (n_newrun (list Z) 0%nat (dec_ns v))
+  else if k_mapped kind then match v with _ :: c => 0 :: c | [] => [] end else v.
+(* observation: without the location tag; the flag kinds (plain bool objects) cannot count constructions / destructions *)
+Definition k_view (kind : Z) (v : list Z) : list Z :=
+  if k_tnotif kind
+  then match tl v with
+       | made :: freed :: r => if (k_base kind =? 0) || (k_base kind =? 1) then 0 :: 0 :: r else made :: freed :: r
+       | r => r
+       end
+  else if k_mapped kind then tl v else v.
 
 (* ---- case decoding ---- *)
 Definition take_str (l : list Z) : str * list Z :=
@@ -304,7 +427,7 @@ Fixpoint dec_opts (n : nat) (l : list Z) : list copt * list Z :=
           let impl' := match impl with
                        | Some [] => Some IMPLICIT_DEFAULT
                        | Some i => Some i
-                       | None => if (kind =? 0) || (kind =? 1) || (kind =? 7) || (kind =? 8) then Some IMPLICIT_DEFAULT else None
+                       | None => if (kind =? 0) || (kind =? 1) || (kind =? 7) || (kind =? 8) || (kind =? 12) || (kind =? 16) || (kind =? 19) then Some IMPLICIT_DEFAULT else None
                        end in
           let '(os, r3) := dec_opts n' r2 in
           (mkC kind (mkOpt (negb (comp =? 0)) impl' d) :: os, r3)
